@@ -125,11 +125,15 @@ def r2_map_unmap(r, facts):
                 continue
             # releasing / transferring sites for this mapping
             done = []
+            from .c12 import norm as _norm
+            map_len = _norm(eb.operand(t['args'][1] if kind == 'libc::mmap' else t['args'][0]))
             for l2, t2 in f.calls():
                 n2 = t2.get('callee') or ''
                 if n2 in ('io_uring::munmap', 'libc::munmap'):
                     if ptr_expr_pred(eb.operand(t2['args'][0])) and _same_mapping(f, eb, t2['args'][0], loc):
                         done.append(l2)
+                        ul = _norm(eb.operand(t2['args'][1]))
+                        r.require(ul == map_len, '%s/unmap-len%d' % (name, idx), 'an error path unmaps mapping #%d with a length (%s) different from the mapped length (%s): part of the mapping is left behind' % (idx, eb.operand(t2['args'][1]), eb.operand(t['args'][1] if kind == 'libc::mmap' else t['args'][0])), f.where(l2))
                 if n2 == 'std::result::Result::<T, E>::inspect_err':
                     ce = eb.operand(t2['args'][1])
                     if ce[0] == 'agg' and 'closure' in ce[1] and any(ptr_expr_pred(a) and _same_mapping_expr(f, a, loc) for a in ce[3]):
@@ -138,6 +142,29 @@ def r2_map_unmap(r, facts):
                             # counts on the Err edge of the inspected result: the following `?` Break edge
                             done.append(l2)
                             r.idiom('inspect_err(|_| munmap(captured))')
+                            # pointer and length inside the closure, expressed through the captured values
+                            from .kernel import subst_args, E
+                            ecl = ExprBuilder(cl, multi='phi')
+                            for l3, t3 in cl.calls():
+                                if (t3.get('callee') or '') != 'io_uring::munmap':
+                                    continue
+                                def lift(x):
+                                    # (*_1).k / _1.k  -> k-th captured operand of the closure aggregate
+                                    if x[0] == 'proj' and x[1][0] == 'arg' and x[1][1] == 1:
+                                        ks = [p for p in x[2] if p.startswith('.')]
+                                        if ks and ks[0][1:].isdigit() and int(ks[0][1:]) < len(ce[3]):
+                                            return ce[3][int(ks[0][1:])]
+                                    if x[0] == 'cast':
+                                        return E('cast', x[1], x[2], x[3], lift(x[4]))
+                                    if x[0] == 'proj':
+                                        from .kernel import simplify_proj
+                                        return simplify_proj(lift(x[1]), x[2], x[3] if len(x) > 3 else None)
+                                    if x[0] == 'bin':
+                                        return E('bin', x[1], lift(x[2]), lift(x[3]))
+                                    return x
+                                cp, clen = lift(ecl.operand(t3['args'][0])), lift(ecl.operand(t3['args'][1]))
+                                r.require(_same_mapping_expr(f, cp, loc), '%s/unmap-ptr%d' % (name, idx), 'the clean-up closure unmaps %s, not mapping #%d' % (cp, idx), cl.where(l3))
+                                r.require(_norm(clen) == map_len, '%s/unmap-len%d' % (name, idx), 'the clean-up closure unmaps mapping #%d with a length (%s) different from the mapped length: part of the mapping is left behind when the later step fails' % (idx, clen), cl.where(l3))
             for l2, s in f.assigns():
                 rv = s['rv']
                 if rv['k'] == 'agg' and rv.get('ak') == 'adt' and (rv.get('adt') or '').startswith('io_uring::') and any(_same_mapping_expr(f, eb.operand(o), loc) and ptr_expr_pred(eb.operand(o)) for o in rv['ops'] if 'l' in o):
